@@ -68,11 +68,17 @@ def info(out):
 
 def run_task(task):
     import checks.C05 as me
+    if task["params"].get("mode") == "models":
+        from checks import c18_models
+        return c18_models.run_task(task)
     return histcheck.run_task(task, me)
 
 
 def replay(rec):
     import checks.C05 as me
+    if rec["params"].get("mode") == "models":
+        from checks import c18_models
+        return c18_models.replay(rec)
     return histcheck.replay(rec, me)
 
 
@@ -104,7 +110,19 @@ def tasks(tier, seed, selftest=False):
             S.append(dict(family="U3", skeleton=sk, timebox=600, cube_k=5, nbits=24))
             for fam in ("B22", "CH4"):
                 S.append(dict(family=fam, skeleton=sk, timebox=300, cube_k=3, nbits=20))
-    return histcheck.mk_tasks(PROP, S, seed)
+    T = histcheck.mk_tasks(PROP, S, seed)
+    # published models: early-stopped expansions completed by skipping, seeds requested on every node; z3 decides over
+    # all states that every fixed point of the model is reported by some node, minimal trap spaces are covered, seeds
+    # lie in their node's space (checks/c18_models.py)
+    import glob
+    import os
+    mdir = os.path.join(os.environ.get("VERIF_REPO", "/repo"), "models/bbm-bnet-inputs-true")
+    paths = sorted(glob.glob(os.path.join(mdir, "*.bnet")), key=os.path.getsize)
+    paths = paths[:150] if q else paths
+    for i in range(0, len(paths), 10 if q else 3):
+        T.append({"prop": PROP, "family": "-", "label": "models/stop+skip", "timebox": 20 if q else 200, "seed": seed,
+                  "params": {"mode": "models", "models": paths[i:i + (10 if q else 3)], "strats": ["bfs3+skiprem", "dfs4+skipall", "min+skip"], "cap_s": 20 if q else 150}})
+    return T
 
 
 def main(tier, seed, t0, selftest=False):
@@ -112,5 +130,6 @@ def main(tier, seed, t0, selftest=False):
     return common.finish(PROP, tier, seed, "model_checking", results, t0, selftest=selftest, functions=FUNCTIONS,
                          bounds={"history": "limited strategy (symbolic limits/start/target) + skip_remaining | skip_to_minimal on every stub, or [prefix] + expand_minimal_spaces(skip_ignored symbolic); then seeds on every node",
                                  "families": "U2, D3, P:MAA3+SRC1, P:MAA3+SW2, P:MAA3+SW2+SW2 (4-7 variables, motif-avoidant core x source/switches) time-boxed (quick); + U3 cubes, B22, CH4 (thorough)",
-                                 "motif-avoidant": "SymNet predicate: some attractor state lies in no minimal trap space"},
+                                 "motif-avoidant": "SymNet predicate: some attractor state lies in no minimal trap space",
+                                 "published models": "150 smallest models (quick) / all 210 (thorough) x {bfs(3)+skip_remaining, dfs(4)+skip_to_minimal on every stub, expand_minimal_spaces(skip_ignored=True)}, seeds on every node: every fixed point of the model (z3 over all states) is reported by some node, every minimal trap space contains a seed, seeds lie in their node's space; complex attractors on these models are not decided"},
                          assumptions=["contract stubs of DESIGN.md §8 validated on every representative"])
